@@ -1083,14 +1083,14 @@ class Interp(object):
             else:
                 di = len(args) + i - (len(params) - len(defaults))
                 if di >= 0:
-                    env.vars[p] = self.eval(defaults[di], Env(f.closure), ctx)
+                    env.vars[p] = self._default_value(f, node, ("pos", di), defaults[di], ctx)
                 else:
                     raise AbsRaise("TypeError", ("missing argument %s of %s" % (p, f.name),))
         for p, d in zip(a.kwonlyargs, a.kw_defaults):
             if p.arg in kw:
                 env.vars[p.arg] = kw.pop(p.arg)
             elif d is not None:
-                env.vars[p.arg] = self.eval(d, Env(f.closure), ctx)
+                env.vars[p.arg] = self._default_value(f, node, ("kw", p.arg), d, ctx)
             else:
                 raise AbsRaise("TypeError", ("missing keyword argument %s" % p.arg,))
         if a.kwarg is not None:
@@ -1450,6 +1450,19 @@ class Interp(object):
                 return None
             return Prim(_exc_init, "BaseException.__init__")
         raise AbsRaise("AttributeError", ("%s has no attribute %s" % (qual, name),))
+
+    def _default_value(self, f, node, which, expr, ctx):
+        """Default values are computed once, when the `def` is executed, and shared by all calls (a mutable default is one
+        object).  For a module-level function or a method that is once per interpretation; a nested function is defined anew
+        each time its enclosing function runs (one closure environment per definition)."""
+        cache = self.__dict__.setdefault("_default_vals", {})
+        key = (id(node), id(f.closure) if f.closure is not None else None, which)
+        hit = cache.get(key)
+        if hit is not None and hit[0] is f.closure:
+            return hit[1]
+        v = self.eval(expr, Env(f.closure), ctx)
+        cache[key] = (f.closure, v)
+        return v
 
     def exc_pickle_roundtrip(self, obj):
         """What arrives when an exception instance of a repository class crosses a process boundary: pickle stores
@@ -2761,6 +2774,10 @@ def _b_dict(it, a, k):
 
 def _b_repr(it, a, k):
     v = a[0]
+    if isinstance(v, AObj) and v.cls in it.repo.classes:
+        q, f = it.repo.find_method(v.cls, "__repr__")
+        if f is not None:
+            return it.call(it.getattr(v, "__repr__"), [])
     if isinstance(v, Abs) or _has_abs(v):
         it.unsupported("repr() of an abstract value")
     return repr(v)
